@@ -281,21 +281,25 @@ def strip (s : Text) : Text := ((s.dropWhile isSpace).reverse.dropWhile isSpace)
 /-- body of a quoted title after the opening apostrophe, when the rest is `([^']|'')*'` exactly. -/
 def quotedBody : Text → Option Text
   | [] => none
-  | ['\''] => some []
-  | '\'' :: '\'' :: s => (quotedBody s).map fun b => '\'' :: '\'' :: b
-  | '\'' :: _ => none
-  | c :: s => (quotedBody s).map fun b => c :: b
+  | c :: s =>
+    if c = '\'' then
+      match s with
+      | [] => some []                                -- the closing apostrophe
+      | d :: s' => if d = '\'' then (quotedBody s').map fun b => '\'' :: '\'' :: b else none
+    else (quotedBody s).map fun b => c :: b
 
 /-- `resolve_sheet`: `re.match(SHEET_TITLE, sheet_str + '!')` on a text without `!`; group `quoted`
     (apostrophes still doubled) or `notquoted` (no `'`, `^`, blank), else the text itself. -/
 def resolveSheet (sheetStr : Text) : Text :=
   let s := strip sheetStr
   match s with
-  | '\'' :: rest =>
-    match quotedBody rest with
-    | some body => if body = [] then "None".toList else body     -- `'' or None`
-    | none => s
-  | _ => s
+  | [] => s
+  | c :: rest =>
+    if c = '\'' then
+      match quotedBody rest with
+      | some body => if body = [] then "None".toList else body     -- `'' or None`
+      | none => s
+    else s
 
 /-- `s.rsplit(c, 1)` when `c` occurs. -/
 def rsplit1 (c : Char) (s : Text) : Text × Text :=
@@ -308,11 +312,11 @@ def split1 (c : Char) (s : Text) : Text × Option Text :=
   | [] => (s, none)
   | _ :: rest => (s.takeWhile (· ≠ c), some rest)
 
-/-- one end of `range_boundaries`: `[$]?letters?[$]?digits?` (0 = absent). -/
+/-- one end of `range_boundaries`: `[$]?letters?[$]?digits?` (0 = absent; upper-case letters, as files
+    have them). -/
 def boundary (s : Text) : Nat × Nat :=
   let s := s.filter (· ≠ '$')
-  (colIndex ((s.takeWhile fun c => isUpper c || isLower c).map Char.toUpper),
-   natOf ((s.dropWhile fun c => isUpper c || isLower c).takeWhile isDigit))
+  (colIndex (s.takeWhile isUpper), natOf ((s.dropWhile isUpper).takeWhile isDigit))
 
 /-- `range_boundaries` with the `or 1` / `or MAX` defaults of `resolve_ranges`. -/
 def rangeBoundaries (rng : Text) : (Nat × Nat) × (Nat × Nat) :=
